@@ -6,8 +6,12 @@ for the bounds-check policies are in POLICY below)."""
 P = {}
 
 
-def prog(name, src, mode="pool", rt=4):
+def prog(name, src, mode="pool", rt=4, finding=None):
+    """finding: the program exists to exhibit ONE recorded defect that shows under several option sets: a value
+    disagreement on it is keyed prog:<name>:<finding> instead of prog:<name>:<buffer policy of the option set>"""
     P[name] = {"src": src, "mode": mode, "rt": rt}
+    if finding:
+        P[name]["finding"] = finding
 
 
 prog("loop_continue_continuing", """
@@ -620,6 +624,36 @@ fn put(p: ptr<storage, array<u32>, read_write>, i: u32, v: u32) { (*p)[i] = v; }
 @compute @workgroup_size(1)
 fn main() { o[0] = get(&data, 0u); o[1] = get(&data, 2u); put(&data, 1u, 77u); o[2] = arrayLength(&data); }
 """, rt=4)
+
+# found by the generated family (lib/mslgen.py): a C++ conditional expression emitted without enclosing parentheses
+prog("select_scalar_operand", """
+@group(0) @binding(0) var<storage, read_write> o: array<f32, 4>;
+@group(0) @binding(1) var<uniform> u: vec4<f32>;
+@compute @workgroup_size(1)
+fn main() {
+  let c = u.x < u.y;
+  o[0] = u.z + select(u.w, 2.0, c);
+  o[1] = -select(u.w, u.z, c);
+  o[2] = select(u.x, u.y, c) * 3.0;
+  o[3] = select(u.x, u.y, c);
+}
+""", mode="finite", finding="ternary-operand")
+
+prog("rzsw_value_index_operand", """
+@group(0) @binding(0) var<storage, read_write> o: array<u32, 4>;
+@group(0) @binding(1) var<uniform> ix: vec4<u32>;
+@compute @workgroup_size(1)
+fn main() {
+  let v = vec4<u32>(10u, 20u, 30u, 40u) + ix;
+  let i = ix.x % 4u;
+  o[0] = 5u ^ v[i];
+  o[1] = v[i];
+  let m = mat3x3<f32>(vec3<f32>(1.0, 2.0, 3.0), vec3<f32>(4.0, 5.0, 6.0), vec3<f32>(7.0, 8.0, 9.0));
+  let col = m[i % 3u];
+  o[2] = select(7u, 9u, col.z < 6.5);
+  o[3] = u32(col.y);
+}
+""", finding="ternary-operand")
 
 # ---------------------------------------------------------------- bounds-check policies: hostile indices
 # Programs use the macros
